@@ -247,12 +247,12 @@ Section Tokens.
     intros H. apply map_int_len in H. apply tokens2class_length in E. congruence.
   Qed.
 
-  Theorem prosodic_string_tokens_length m toks s :
-    prosodic_string_tokens art is_stress is_diac m toks = Ok s -> length s = length toks.
+  Theorem prosodic_string_tokens_length cldf m toks s :
+    prosodic_string_tokens art is_stress is_diac cldf m toks = Ok s -> length s = length toks.
   Proof.
     unfold prosodic_string_tokens. destruct toks as [|t r].
     - intros H. injection H as <-. reflexivity.
-    - destruct (sonority art is_stress is_diac false (t :: r)) as [l| | |] eqn:E; try discriminate.
+    - destruct (sonority art is_stress is_diac cldf (t :: r)) as [l| | |] eqn:E; try discriminate.
       intros H. apply prosodic_string_length in H. apply sonority_length in E. congruence.
   Qed.
 End Tokens.
